@@ -130,10 +130,13 @@ fn check_rules(rule_texts: &[&str], a: &mut Acc) {
 pub fn run_check() -> i32 {
     let mut r = Report::new("C11");
     let thorough = r.thorough();
-    r.rule = "rule lists = every single rule (thorough: every ordered pair) of a 43-rule pool (alphas, variables, insertion, deletion, metathesis, tone, two that raise runtime errors); word lists = every ordered list of 1..3 words of a 13-word pool (incl. a word ending in a partial match of a two-element input and a word starting with a full match) (two fail at parse, two are the same word in americanist and in plain IPA spelling, some fail at apply depending on the rule), which contains all their permutations and sublists; lines `u v` and `u v w` for all pool pairs/triples of succeeding words; lines `u v` for all pool pairs in which a word fails (alone and after a good line); lines with an empty word (` u`, `u  v`, `  u v`). Oracle: len(out) == len(in), out[i] == run(R,[W[i]])[0], a line is the single-word results joined by one space, a failing list fails with the error of its first failing word (within one phase). Non-trivial = list of >= 2 words.".into();
+    r.rule = "rule lists = every single rule (thorough: every ordered pair) of a 43-rule pool, plus every ordered pair of 8 rules that raise errors on different words (alphas, variables, insertion, deletion, metathesis, tone, two that raise runtime errors); word lists = every ordered list of 1..3 words of a 13-word pool (incl. a word ending in a partial match of a two-element input and a word starting with a full match) (two fail at parse, two are the same word in americanist and in plain IPA spelling, some fail at apply depending on the rule), which contains all their permutations and sublists; lines `u v` and `u v w` for all pool pairs/triples of succeeding words; lines `u v` for all pool pairs in which a word fails (alone and after a good line); lines with an empty word (` u`, `u  v`, `  u v`). Oracle: len(out) == len(in), out[i] == run(R,[W[i]])[0], a line is the single-word results joined by one space, a failing list fails with the error of its first failing word (within one phase). Non-trivial = list of >= 2 words.".into();
     r.assumptions.push("lists mixing parse-phase and apply-phase failures only have to fail (run parses all words before applying any rule; the statement does not rank the phases)".into());
     let mut jobs: Vec<Vec<&str>> = RULE_POOL.iter().map(|x| vec![*x]).collect();
     if thorough { for a in RULE_POOL { for b in RULE_POOL { jobs.push(vec![a, b]); } } }
+    // two rule groups that fail on different words at different stages (the error must be that of the first failing WORD, not of the earliest failing group)
+    let failing = ["{p,t} > {b}", "% > a", "a > *", "i > %", "a > e", "t > *", "C > * / _#", "V > * / #_"];
+    if !thorough { for a in failing { for b in failing { if a != b { jobs.push(vec![a, b]); } } } }
     let mut t = Acc::default();
     par_fold(jobs.len(), 1, Acc::default, |i, a| check_rules(&jobs[i], a), |a| t.merge(a));
     r.evaluations = t.evals; r.transitions = t.evals; r.validated = t.ok + t.errs; r.nontrivial = t.ok; r.states = t.outs;
